@@ -564,7 +564,7 @@ func genOverlay(cf *ContractFile) (string, error) {
 	body.WriteString(overlayPrelude)
 	for _, im := range cf.Imports {
 		if strings.Trim(im, `"`) == "time" {
-			body.WriteString("func govcTsec(t time.Time) int { return 0 }\nfunc govcTns(t time.Time) int { return 0 }\nfunc govcTzoff(t time.Time) int { return 0 }\nfunc govcTzid(t time.Time) int { return 0 }\n")
+			body.WriteString("func govcTsec(t time.Time) int { return int(t.Unix()) }\nfunc govcTns(t time.Time) int { return t.Nanosecond() }\nfunc govcTzoff(t time.Time) int { _, o := t.Zone(); return o }\nfunc govcTzid(t time.Time) int { return 0 }\n")
 		}
 		if strings.Trim(im, `"`) == "reflect" {
 			body.WriteString("func govcIfaceOf(v reflect.Value) interface{} { return v.Interface() }\n")
